@@ -7,7 +7,7 @@ the independent E5 decoder.
 
 from __future__ import annotations
 
-from simkit import gemenv, refcodec as rc
+from simkit import facades, gemenv, refcodec as rc
 
 PROP = "C12"
 SHRINK = ("ops",)
@@ -18,10 +18,10 @@ BUDGET = {
 }
 REQUIRED_PROBES = {"quick": ("define_refused", "define_ok", "delete_one", "delete_all", "link_refused", "link_ok",
                              "unlink", "dup_rptid_in_link", "trigger_enabled", "trigger_disabled", "s6f15",
-                             "delete_linked_report", "transport_secsi"),
+                             "delete_linked_report", "transport_secsi", "trigger_reconf_delete_later"),
                    "thorough": ("define_refused", "define_ok", "delete_one", "delete_all", "link_refused", "link_ok",
                                 "unlink", "dup_rptid_in_link", "trigger_enabled", "trigger_disabled", "s6f15",
-                                "delete_linked_report", "transport_secsi")}
+                                "delete_linked_report", "transport_secsi", "trigger_reconf_delete_later")}
 EVIDENCE = {
     "level": "exploration",
     "rule": ("seeded sequences of S2F33 (define one/many, delete one, delete all, unknown VID, redefinition), "
@@ -100,6 +100,11 @@ def gen_plan(rng, tier, index):
             # while the first report is still unacknowledged
             ops.append(["trigger_multi", rng.sample(KNOWN_CEIDS, rng.choice([2, 3, 3])),
                         rng.choice(["plain", "withhold", "disable_mid", "unlink_mid"])])
+        elif r < 0.88:
+            # a report is deleted / an event unlinked or disabled by the host while the equipment's sender thread is
+            # still assembling the event report (it sits in a slow status variable callback of the first report)
+            ops.append(["trigger_reconf", rng.choice(KNOWN_CEIDS), rng.choice(["delete_later", "delete_later", "disable",
+                                                                               "none"])])
         elif r < 0.93:
             ops.append(["setval", rng.choice([10, 11, 30]), rng.randrange(1000)])
         else:
@@ -149,7 +154,19 @@ def run(sim, plan):
     eq.data_values[30] = secsgem.gem.DataValue(30, "dv30", var.U4, False)
     eq.data_values[30].value = 3
     eq.collection_events[50] = secsgem.gem.CollectionEvent(50, "custom", [30])
-    values = {10: rc.u4(7), 11: rc.a("init"), 30: rc.u4(3), 1002: rc.b(5)}
+    values = {10: rc.u4(7), 11: rc.a("init"), 30: rc.u4(3), 1002: rc.b(5), 12: rc.u4(77)}
+    # status variable 12 is answered by an application callback that can be slow
+    eq.status_variables[12] = secsgem.gem.StatusVariable(12, "sv12", "", var.U4, True)
+    slow = {"on": False, "entered": 0}
+
+    def sv_cb(_svid, _sv):
+        if slow["on"]:
+            slow["on"] = False
+            slow["entered"] += 1
+            facades.time_facade.sleep(0.4)
+        return var.U4(77)
+
+    eq.on_sv_value_request = sv_cb
     env.start()
     peer = env.establish()
     if peer is None:
@@ -388,6 +405,45 @@ def run(sim, plan):
                                                           f"; contents {got} vs {want}") + f"; history {hist[-5:]}",
                               sig=f"C12.R4|multi-{mode}|" + ("events" if [g[0] for g in got] != [w[0] for w in want]
                                                                else "content"))
+        elif kind == "trigger_reconf":
+            ceid, mode = op[1], op[2]
+            # known configuration: event linked to report 1 (slow variable 12 first) and report 2
+            for sub in (["define", []], ["define", [[1, [12, 10]], [2, [30]]]], ["link", [[ceid, [1, 2]]]],
+                        ["enable", True, [ceid]]):
+                hist.append(sub)
+                run_op(sub)
+            if links.get(ceid) != [1, 2] or enabled.get(ceid) is not True:
+                sim.violation("C12.R3", f"set-up of a fresh configuration was refused; history {hist[-6:]}",
+                              sig="C12.R3|fresh-config-refused")
+            new_s6f11()
+            before = expected_rpt(ceid)
+            slow["on"] = True
+            n0 = slow["entered"]
+            sim.focus(2)
+            eq.trigger_collection_events([ceid])
+            if not sim.wait_until(lambda: slow["entered"] > n0, 2.0):
+                slow["on"] = False
+                sim.violation("C12.R4", f"trigger of enabled event {ceid}: its report was never assembled",
+                              sig="C12.R4|s6f11-count-0|reconf")
+            sim.probe("trigger_reconf_" + mode)
+            if mode == "delete_later":
+                sub = ["define", [[2, []]]]
+            elif mode == "disable":
+                sub = ["enable", False, [ceid]]
+            else:
+                sub = None
+            if sub is not None:
+                hist.append(sub)
+                run_op(sub)           # answered while the sender thread is still inside the slow callback
+            sim.advance(0.9)
+            got = new_s6f11()
+            after = expected_rpt(ceid) if ceid in links else []
+            # the event was enabled and linked when it was triggered: exactly one report, built from the
+            # configuration before or after the host's concurrent request
+            if len(got) != 1 or got[0][0] != ceid or got[0][1] not in (before, after):
+                sim.violation("C12.R4", f"trigger of enabled event {ceid} with a concurrent {mode}: S6F11 {got}, expected one "
+                              f"report with {before} or {after}; history {hist[-4:]}",
+                              sig=f"C12.R4|reconf-{mode}|" + ("count-%d" % min(len(got), 2) if len(got) != 1 else "content"))
         elif kind == "s6f15":
             sim.probe("s6f15")
             check_s6f15(op[1], "s6f15 op")
